@@ -9,6 +9,7 @@ package main
 
 import (
 	"bytes"
+	"encoding/binary"
 	"fmt"
 	"strings"
 
@@ -36,10 +37,17 @@ type c10Stream struct {
 	TC   *tlc.Container // patch: old build
 	SC   *tlc.Container // patch: new build; sig: the signed container
 	Msgs []proto.Message
+	// HdrSet: the frame between the magic and the containers (PatchHeader / SignatureHeader) carries
+	// the raw payload Hdr instead of the header the writers produce for the framing (c10_hdr.go)
+	HdrSet bool
+	Hdr    []byte
+	// MagicSet: the first four bytes of the stream carry Magic instead of the kind's own magic number
+	MagicSet bool
+	Magic    int32
 }
 
 func (s *c10Stream) clone() *c10Stream {
-	o := &c10Stream{Kind: s.Kind}
+	o := &c10Stream{Kind: s.Kind, HdrSet: s.HdrSet, Hdr: append([]byte(nil), s.Hdr...), MagicSet: s.MagicSet, Magic: s.Magic}
 	if s.TC != nil {
 		o.TC = s.TC.Clone()
 	}
@@ -227,7 +235,16 @@ func c10Encode(s *c10Stream, comp lib.Compression) ([]byte, error) {
 	if err := w.Close(); err != nil {
 		return nil, err
 	}
-	return buf.Bytes(), nil
+	out := buf.Bytes()
+	if s.HdrSet && s.Kind != c10KOverlay {
+		if out, err = c10SpliceHeader(out, s.Hdr); err != nil {
+			return nil, err
+		}
+	}
+	if s.MagicSet && len(out) >= 4 {
+		binary.LittleEndian.PutUint32(out, uint32(s.Magic)) // (wire.Endianness)
+	}
+	return out, nil
 }
 
 // ---------- generic field view of one framed message ----------
